@@ -23,21 +23,50 @@
                                                                     → `mapOf` (a Go map is kept as a list of entries in
                                                                        the canonical order `keyLt`; SetMapIndex = `mapSet`)
 
-  Flat structs through a derived object type are modelled at the end of the file (own code ↔ model map there).
+    types.go      wrapReflected, registry hit (`loadFromImplRegistry` → objecttype.go FromReflectedValue →
+                  NewReflectedValue): a struct, or a POINTER to a struct, whose type was registered with
+                  Reflector.TypeFromReflect becomes a `reflectedObject` that HOLDS the reflect.Value  → `Val.obj S isPtr g`
+    types.go      wrapReflectedType, registry hit: the object type; `*S` → Optional[object type]      → `Ty.obj S`
+    objecttype.go IsInstance / IsAssignable (same type, or an ancestor of the value's type)           → `inst (.obj S)`, `ancestors`
+    objectvalue.go reflectedObject.ReflectTo (`value.Set(o.value)`)                                   → `reflectTo` struct arms
+
+  Structs through a derived object type (px.New from an init hash / positionally, setValues, embedding) are modelled at the
+  end of the file (own code ↔ model map there).  Every struct type of a term is registered by the harness (named
+  registration with TypeFromReflect + AddTypes, the documented use), parent = the embedded first field's type.
 
   Not modelled (see props/C18.json): `reflect` itself (it is the parameter of the model: MakeSlice, SetMapIndex, Set,
-  settable-ness behave as the Go documentation says), nested structs / pointers to structs / embedding / tags other than
-  `name` / the implementation registry, interface{} holding anything but a scalar, map keys other than integers, strings
-  and booleans, named types, Runtime fall-back values, NaN payloads.
+  settable-ness behave as the Go documentation says), struct types that were never registered (plain-struct-hash) or
+  are derived anonymously, the registry-mapped path (FromReflectedValue / ToReflectedValue of declared types), a struct
+  field that is itself an interface{} (Runtime fall-back value), an embedded POINTER to a struct, fields that shadow a
+  field of an embedded struct, tags other than `name` / `value`, interface{} holding anything but a scalar, map keys other
+  than integers, strings and booleans, named types, NaN payloads.
   Strings are valid UTF-8.  Core-only file (linked into the driver).
 -/
 namespace Pcore.Reflect
 
-/-- Go types assembled with reflect.  Width 0 = the platform `int` / `uint` (64 bit; a type distinct from int64). -/
+/-- a literal written in a struct tag (`value=>…`) -/
+inductive Lit where
+  | int (i : Int) | str (s : String) | bool (b : Bool)
+  deriving DecidableEq, Repr, Inhabited
+
+/-- what the `puppet:"…"` tag of a struct field says (reflector.go ReflectFieldTags) plus the field's `Anonymous` flag -/
+structure FTag where
+  attr : Option String := none     -- `name=>'x'`
+  dflt : Option Lit := none        -- `value=>LIT`
+  anon : Bool := false             -- embedded field
+  deriving DecidableEq, Repr, Inhabited
+
+/-- Go types assembled with reflect.  Width 0 = the platform `int` / `uint` (64 bit; a type distinct from int64).
+    A struct type is the chain of its fields: `snil` is `struct{}`, `scons name tag ft rest` puts the field `name ft` in
+    front of the struct type `rest` (`Modelled` demands that `rest` is a struct type). -/
 inductive GoTy where
   | int (w : Nat) | uint (w : Nat) | float (w : Nat) | string | bool | iface
   | slice (e : GoTy) | map (k v : GoTy) | ptr (e : GoTy) | array (n : Nat) (e : GoTy)
+  | snil | scons (name : String) (tag : FTag) (ft : GoTy) (rest : GoTy)
   deriving DecidableEq, Repr, Inhabited
+
+def isStruct : GoTy → Bool
+  | .snil => true | .scons .. => true | _ => false
 
 /-- Go values.  Integers are mathematical integers inside the width's range (`hasType`); floats are the IEEE-754 bits of
     the float64 value; `nil` is the nil slice / map / pointer / interface, distinct from the empty `slice []` / `map []`;
@@ -47,6 +76,7 @@ inductive GoVal where
   | nil
   | slice (es : List GoVal) | arr (es : List GoVal) | map (es : List (GoVal × GoVal))
   | ptr (v : GoVal) | iface (t : GoTy) (v : GoVal)
+  | st (fs : List GoVal)
   deriving Repr, Inhabited
 
 /-- pcore values (the kinds the bridge produces) -/
@@ -54,11 +84,16 @@ inductive Val where
   | int (i : Int) | flt (bits : Nat) | str (s : String) | bool (b : Bool) | undef
   | bin (isNil : Bool) (bs : List Int)
   | arr (es : List Val) | hsh (es : List (Val × Val))
+  /-- an instance of the object type derived from the struct type `S` (a `reflectedObject`): it HOLDS the Go value —
+      the struct `g` itself (`isPtr = false`) or the pointer to it (`isPtr = true`) -/
+  | obj (S : GoTy) (isPtr : Bool) (g : GoVal)
   deriving Repr, Inhabited
 
 /-- pcore types (the forms `wrapReflectedType` produces) -/
 inductive Ty where
   | int (lo hi : Int) | float (w : Nat) | str | bool | array (e : Ty) | hash (k v : Ty) | opt (t : Ty) | bin | any
+  /-- the object type derived from (and registered for) the struct type `S` -/
+  | obj (S : GoTy)
   deriving DecidableEq, Repr, Inhabited
 
 def bitsOf (w : Nat) : Nat := if w = 0 then 64 else w
@@ -107,6 +142,10 @@ def Modelled : GoTy → Bool
   | .array _ e => Modelled e
   | .map k v => keyTy k && Modelled v
   | .ptr e => (match e with | .ptr _ => false | .iface => false | _ => true) && Modelled e
+  | .snil => true
+  -- an embedded field is a struct; a field that is itself an interface{} wraps to a Runtime value (not modelled)
+  | .scons _ tg ft rest => isStruct rest && (!tg.anon || isStruct ft) && (match ft with | .iface => false | _ => true) &&
+      Modelled ft && Modelled rest
 
 def strLt (a b : String) : Bool := decide (a < b)
 
@@ -150,6 +189,10 @@ def hasType : GoTy → GoVal → Bool
   | .ptr _, .nil => true
   | .ptr e, .ptr v => hasType e v
   | .ptr _, _ => false
+  | .snil, .st [] => true
+  | .snil, _ => false
+  | .scons _ _ ft rest, .st (v :: vs) => hasType ft v && hasType rest (.st vs)
+  | .scons _ _ _ _, _ => false
 
 /-! ### Go → pcore value -/
 
@@ -212,8 +255,13 @@ def wrap (via : Bool) : GoTy → GoVal → Val
   | .map k v, .nil => if via && nilToEmptyMap k v then .hsh [] else .undef
   | .map k v, .map es => .hsh (sortEntries (es.map fun kv => (wrap true k kv.1, wrap true v kv.2)))
   | .map _ _, _ => .undef
-  | .ptr e, .ptr v => wrap false e v
+  -- a pointer to a registered struct is looked up in the implementation registry BEFORE it is dereferenced: the object
+  -- holds the pointer
+  | .ptr e, .ptr v => if isStruct e then .obj e true v else wrap false e v
   | .ptr _, _ => .undef
+  -- a struct whose type is registered (TypeFromReflect): `FromReflectedValue` → `NewReflectedValue`, the object holds it
+  | .snil, v => .obj .snil false v
+  | .scons n tg ft rest, v => .obj (.scons n tg ft rest) false v
 
 /-! ### Go type → pcore type -/
 
@@ -233,6 +281,14 @@ def typeOf : GoTy → Ty
   | .array _ e => .array (typeOf e)
   | .map k v => .hash (typeOf k) (typeOf v)
   | .ptr e => .opt (typeOf e)
+  | .snil => .obj .snil
+  | .scons n tg ft rest => .obj (.scons n tg ft rest)
+
+/-- the parent types of the object type derived from a struct type: the chain of the FIRST fields that are embedded
+    structs (reflector.go InitializerFromTagged `i == 0 && f.Anonymous`; the harness passes the parent's type) -/
+def ancestors : GoTy → List GoTy
+  | .scons _ tg ft _ => if tg.anon && isStruct ft then ft :: ancestors ft else []
+  | _ => []
 
 /-- IsInstance for the type forms above -/
 def inst : Ty → Val → Bool
@@ -253,6 +309,9 @@ def inst : Ty → Val → Bool
   | .bin, .bin _ _ => true
   | .bin, _ => false
   | .any, _ => true
+  -- objecttype.go IsInstance = IsAssignable(t, o.PType()): the same type or one of the value's type's ancestors
+  | .obj S, .obj S' _ _ => S' = S || (ancestors S').contains S
+  | .obj _, _ => false
 
 /-! ### pcore value → Go -/
 
@@ -267,6 +326,10 @@ def truncU (b : Nat) (i : Int) : Int := i % 2 ^ b
 def zeroOf : GoTy → GoVal
   | .int _ => .int 0 | .uint _ => .int 0 | .float _ => .flt 0 | .string => .str "" | .bool => .bool false
   | .array n e => .arr (List.replicate n (zeroOf e))
+  | .snil => .st []
+  | .scons _ _ ft rest => match zeroOf rest with
+    | .st vs => .st (zeroOf ft :: vs)
+    | _ => .st [zeroOf ft]
   | _ => .nil
 
 def mapOpt {α β : Type} (f : α → Option β) : List α → Option (List β)
@@ -331,11 +394,24 @@ def reflectTo (r32 : Nat → Nat) : GoTy → Val → Option GoVal
   -- pointer-to-interface destinations are refused by every arm
   | .ptr _, .undef => some .nil
   | .ptr _, .bin _ _ => none
+  -- objectvalue.go reflectedObject.ReflectTo: `value.Set(o.value)` — the object that holds the pointer goes into a pointer
+  -- destination of its own type; an object that holds the struct would need `o.value.Addr()` (panics unless the struct
+  -- happens to be addressable: outside the model, answered as a fault)
+  | .ptr e, .obj S p g => if p && S = e then some (.ptr g) else none
   | .ptr e, v =>
       match e with
       | .ptr _ => none
       | .iface => none
+      | .snil => none
+      | .scons .. => none
       | _ => (reflectTo r32 e v).map .ptr
+  -- a struct destination: only the object of that very struct type (`Set` panics on any other Go type), undef → zero struct
+  | .snil, .obj S p g => if !p && S = .snil then some g else none
+  | .snil, .undef => some (zeroOf .snil)
+  | .snil, _ => none
+  | .scons n tg ft rest, .obj S p g => if !p && S = .scons n tg ft rest then some g else none
+  | .scons n tg ft rest, .undef => some (zeroOf (.scons n tg ft rest))
+  | .scons _ _ _ _, _ => none
 
 /-! ### which (type, value) pairs satisfy each half of the property -/
 
@@ -372,7 +448,7 @@ def TaOK (via : Bool) : GoTy → GoVal → Bool
   | .ptr e, .ptr x => TaOK false e x
   | _, _ => true
 
-/-! ### flat structs through a derived object type
+/-! ### structs through a derived object type (the attribute list; struct TERMS are mapped onto it further down)
 
   reflector.go  TypeFromReflect / InitializerFromTagged / ReflectFieldTags → `Field` (attribute name = tag `name` or the
                 first-to-lower Go name; attribute type = `typeOf`; tag `value=>X` declares the default X; a pointer field
@@ -390,13 +466,15 @@ def TaOK (via : Bool) : GoTy → GoVal → Bool
   objectvalue.go setValues: attribute i gets values[i], or — when the slice is shorter — its declared default (else
                 undef), each by `ReflectTo` into the field of that Go name                        → `restore`, `setValues`
   objectvalue.go reflectedObject.ReflectTo (the struct itself)                                    → `structOf`
-  Flat = the field types are struct-free modelled types, no field is itself an interface{} (such a field wraps to a
-  Runtime value: not modelled), declared defaults are integers, strings or booleans. -/
+  A field is inside the model (`flatField`) when its type is a modelled type (nested structs, pointers to structs, slices /
+  maps of structs included), it is not itself an interface{} (such a field wraps to a Runtime value: not modelled) and
+  its declared default is an integer, string or boolean that the attribute type accepts. -/
 
 structure Field where
   name : String
   ty : GoTy
   dflt : Option Val := none
+  goName : String := ""
   deriving Repr, Inhabited
 
 /-- the attribute's value (`HasValue`): the declared default, else the implicit undef of a pointer field -/
@@ -519,5 +597,85 @@ def dfltOK (f : Field) : Bool :=
 def flatField (f : Field) : Bool :=
   Modelled f.ty && (match f.ty with | .iface => false | _ => true) && dfltOK f &&
   (match f.dflt with | some d => inst (typeOf f.ty) d | none => true)
+
+/-! ### struct types as terms: fields, tags, embedding
+
+  reflector.go  FieldName: the attribute name is the tag's `name`, else issue.FirstToLower of the Go name   → `attrName`
+  reflector.go  InitializerFromTagged: the FIRST field, when embedded, is not an attribute: it is the parent (the harness
+                passes the object type registered for it as the parent, as TypeSetFromReflect does); every other field —
+                embedded or not — is an attribute                                                 → `ownFields`, `ancestors`
+  objecttype.go collectAttributes(true): the parent's attributes (recursively), then the own        → `attrsOf`
+  objectvalue.go reflectedObject.Get / setValues: `structVal().FieldByName(attr.GoName())` — Go's promotion finds the
+                field of an embedded parent at any depth                                          → `flatVals`, `rebuild`
+  A struct is inside the model (`structWF`) when its attribute names and Go names (over the whole parent chain) are
+  distinct — a clash is an error of the type derivation (attribute) or resolved by depth (Go name): implementation only. -/
+
+def lowerFirstL : List Char → List Char
+  | [] => []
+  | c :: r => if c = '_' then c :: lowerFirstL r else c.toLower :: r
+
+/-- issue.FirstToLower: the first character that is not an underscore is lower-cased -/
+def lowerFirst (s : String) : String := String.ofList (lowerFirstL s.toList)
+
+def Lit.toVal : Lit → Val
+  | .int i => .int i | .str s => .str s | .bool b => .bool b
+
+def fieldOfDecl (n : String) (tg : FTag) (ft : GoTy) : Field :=
+  { name := tg.attr.getD (lowerFirst n), ty := ft, dflt := tg.dflt.map Lit.toVal, goName := n }
+
+/-- the fields of a struct type, every one as an attribute -/
+def declFields : GoTy → List Field
+  | .scons n tg ft rest => fieldOfDecl n tg ft :: declFields rest
+  | _ => []
+
+/-- the attributes of the object type derived from a struct type: the parent's, then the own -/
+def attrsOf : GoTy → List Field
+  | .scons n tg ft rest =>
+      if tg.anon && isStruct ft then attrsOf ft ++ declFields rest else fieldOfDecl n tg ft :: declFields rest
+  | _ => []
+
+/-- the Go values of the attributes, in the order of `attrsOf` (fields of the embedded parent are promoted) -/
+def flatVals : GoTy → GoVal → List GoVal
+  | .scons _ tg ft _, .st (v :: vs) => if tg.anon && isStruct ft then flatVals ft v ++ vs else v :: vs
+  | _, _ => []
+
+/-- the struct with these attribute values -/
+def rebuild : GoTy → List GoVal → GoVal
+  | .scons _ tg ft _, vs =>
+      if tg.anon && isStruct ft then
+        .st (rebuild ft (vs.take (attrsOf ft).length) :: vs.drop (attrsOf ft).length)
+      else .st vs
+  | _, _ => .st []
+
+def nodupS : List String → Bool
+  | [] => true
+  | a :: r => !r.contains a && nodupS r
+
+/-- the object type can be derived and is inside the model: distinct attribute names and Go names over the parent chain,
+    every attribute a modelled field -/
+def structWF (S : GoTy) : Bool :=
+  nodupS ((attrsOf S).map (·.name)) && nodupS ((attrsOf S).map (·.goName)) && (attrsOf S).all flatField
+
+/-- every struct type that occurs in a type (the ones the harness registers) -/
+def structsIn : GoTy → List GoTy
+  | .slice e => structsIn e | .ptr e => structsIn e | .array _ e => structsIn e
+  | .map k v => structsIn k ++ structsIn v
+  | .snil => [.snil]
+  | .scons n tg ft rest => .scons n tg ft rest :: (structsIn ft ++ (structsIn rest).drop 1)
+  | _ => []
+
+def zipFG : List Field → List GoVal → List (Field × GoVal)
+  | a :: as, v :: vs => (a, v) :: zipFG as vs
+  | _, _ => []
+
+/-- attributes with their Go values -/
+def objFVs (S : GoTy) (v : GoVal) : List (Field × GoVal) := zipFG (attrsOf S) (flatVals S v)
+
+/-- `px.New(T, hash)` / `px.New(T, args…)` for the object type of the struct type `S`, reflected back into a fresh `S` -/
+def newNamedS (r32 : Nat → Nat) (S : GoTy) (ih : List (Val × Val)) : Option GoVal :=
+  (newNamed r32 (attrsOf S) ih).map (rebuild S)
+
+def newPosS (r32 : Nat → Nat) (S : GoTy) (args : List Val) : Option GoVal :=
+  (newPos r32 (attrsOf S) args).map (rebuild S)
 
 end Pcore.Reflect
